@@ -1,0 +1,14 @@
+//go:build verif
+
+package fileutil
+
+// VerifHook is set by the verification harness (build tag "verif" only).
+var VerifHook func(label, path string)
+
+// VerifPoint marks a labelled point for the verification harness: with the
+// "verif" build tag it calls VerifHook when one is installed.
+func VerifPoint(label, path string) {
+	if h := VerifHook; h != nil {
+		h(label, path)
+	}
+}
